@@ -25,8 +25,11 @@ var lifecycleAlphabet = func() []letter {
 
 // C14: TCP client lifecycle — histories (sequential, exhaustive) and interleavings.
 func C14(c *core.Ctx) {
+	fine := setFine(c)
 	// (a) every call sequence up to a bound, with factories that fail on chosen calls
-	historySweep(c, "c14", lifecycleAlphabet, c.N(3, 5), c.N(1000, 8000), c.N(8, 10))
+	if !fine {
+		historySweep(c, "c14", lifecycleAlphabet, c.N(3, 5), c.N(1000, 8000), c.N(8, 10))
+	}
 	// (b) concurrent mixes under the deterministic scheduler (and the race detector)
 	type conf struct {
 		name   string
@@ -65,7 +68,11 @@ func C14(c *core.Ctx) {
 	total, allEx := 0, true
 	for _, cfn := range confs {
 		progs := cfn.progs(cfn.cf)
-		n, ex := concExplore(c, "c14", cfn.cf, cfn.prefix, progs, c.N(300, 20000), cfn.name, nil)
+		budget := c.N(300, 20000)
+		if fine {
+			budget = c.N(20, 3000)
+		}
+		n, ex := concExplore(c, "c14", cfn.cf, cfn.prefix, progs, budget, cfn.name, nil)
 		total += n
 		allEx = allEx && ex
 		c.Sample(map[string]interface{}{"configuration": cfn.name, "schedules": n, "exhaustive": ex})
@@ -95,13 +102,19 @@ func C14(c *core.Ctx) {
 				}
 			}
 		}
-		n, _ := concExplore(c, "c14", cf, connect, progs, c.N(60, 2000), fmt.Sprintf("random mix %d", t), nil)
+		budget := c.N(60, 2000)
+		if fine {
+			budget = c.N(8, 600)
+		}
+		n, _ := concExplore(c, "c14", cf, connect, progs, budget, fmt.Sprintf("random mix %d", t), nil)
 		total += n
 	}
 	c.Extra("exhaustive", allEx)
 	c.Extra("schedules", total)
 	// (c) the same operations running freely under the race detector
-	raceStress(c, c.N(150, 3000))
+	if !fine {
+		raceStress(c, c.N(150, 3000))
+	}
 }
 
 // raceStress runs the lifecycle operations from several goroutines WITHOUT the deterministic
